@@ -31,8 +31,15 @@ def hx(b):
 
 
 def addr_s(a):
-    """(ip, port, ...) -> <iphex>@<port>"""
-    return "%s@%d" % (hx(a[0]), a[1])
+    """(ip, port[, flowinfo, scope_id]) -> <iphex>@<port>.  The peer of an AF_INET6 socket is a 4-tuple; a non-zero
+    flowinfo / scope_id (a link-local peer is only reachable WITH its interface) is kept inside the token as
+    ip%scope~flowinfo, so that two askers with the same host and port on different interfaces are different tokens for
+    the oracles and for the model (which treats peers as opaque), and a reply sent to the bare (host, port) shows"""
+    ip = a[0]
+    if len(a) >= 4 and (a[2] or a[3]):
+        sfx = "%%%d~%d" % (a[3], a[2])
+        ip = ip + (sfx.encode() if isinstance(ip, bytes) else sfx)
+    return "%s@%d" % (hx(ip), a[1])
 
 
 def oaddr_s(a):
@@ -713,7 +720,14 @@ V4 = ["10.0.0.1", "10.0.0.2", "192.168.7.9", "8.8.8.8", "1.1.1.1", "255.255.255.
 V6 = ["fd00::1", "fd00::2", "2001:db8::53", "::1"]
 
 
+# link-local askers: the SAME host and port on two interfaces, and with a flow label
+V6_SCOPED = [("fe80::53:1", 40000, 0, 2), ("fe80::53:1", 40000, 0, 3), ("fe80::53:1", 40000, 7, 3), ("fe80::1", 53, 0, 2),
+             ("fe80::1", 53, 0, 5)]
+
+
 def rand_addr(rng, v6=False, few=True):
+    if v6 and few and rng.random() < 0.5:
+        return rng.choice(V6_SCOPED)
     ip = rng.choice(V6 if v6 else V4)
     port = rng.choice([53, 5353, 40000, 40001, 1, 65535]) if few else rng.randint(1, 65535)
     return (ip, port, 0, 0) if v6 else (ip, port)
@@ -727,7 +741,7 @@ def gen_client_script(rng, prop, quick):
     crash of the real code is a property violation"""
     valid = True
     method = "T" if (prop == "C11" or rng.random() < 0.5) else "B"
-    v6 = method == "T" and rng.random() < 0.3
+    v6 = rng.random() < 0.3           # also the plain recvfrom path (method B: DNS only) has IPv6 askers
     family = 10 if v6 else 2
     maxc = rng.choice([3, 4, 5, 8, 8, 65535, 65535, 65535])
     n = rng.randint(3, 14 if quick else 30)
@@ -922,7 +936,7 @@ def oracle_client(prop, method, maxc, family, evs, steps):
                 if unhx(data[0][3]) != want:
                     bad.append(("c11_one_to_one", "step %d UDP_DATA body differs" % i))
                 ch = int(data[0][1])
-                src = tuple(ev[2][:2])
+                src = tuple(ev[2])
                 if src in assoc:
                     if assoc[src] != ch or opens:
                         bad.append(("c11_shared_socket", "step %d source %r moved from channel %d to %d" % (i, src, assoc[src], ch)))
@@ -1313,7 +1327,8 @@ class SystemRun:
     def accept(self, now, src, payload):
         self.asked[payload] = src
         self.ops.append(["asked", hx(payload), list(src)])
-        self.accept_ev(("D", now, src, None if self.method == "B" else ("8.8.8.8", 53), payload))
+        self.accept_ev(("D", now, src, None if self.method == "B" else (("2001:db8::53", 53) if self.family == 10 else ("8.8.8.8", 53)),
+                        payload))
 
     def server_io(self, now, k, ready, io):
         self.ops.append(["server_io", now, k, list(ready), [[hx(x) if isinstance(x, bytes) else (list(x) if isinstance(x, tuple) else x)
@@ -1413,9 +1428,9 @@ def system_stale_witness():
     return r
 
 
-def system_random(rng, maxc, n):
-    srcs = [("10.0.0.%d" % i, 4000 + i) for i in range(1, 5)]
-    r = SystemRun(maxc)
+def system_random(rng, maxc, n, srcs=None, method="B", family=2):
+    srcs = srcs or [("10.0.0.%d" % i, 4000 + i) for i in range(1, 5)]
+    r = SystemRun(maxc, method=method, family=family)
     cnow = snow = 100
     qn = an = 0
     for _ in range(n):
@@ -1537,6 +1552,12 @@ def _system_cases(ctx, rng, quick):
     for i in range(120 if quick else 3000):
         maxc = rng.choice([65535, 65535, 8, 3, 2, 1])
         runs.append((system_random_mixed(rng, maxc, rng.randint(4, 16)), "mixed"))
+    # link-local askers: the same host and port on several interfaces ("never delivered to another requester" needs the
+    # interface); tproxy path (recvmsg) and plain recvfrom path, AF_INET6 listener
+    for i in range(40 if quick else 1000):
+        maxc = rng.choice([65535, 65535, 8, 2])
+        runs.append((system_random(rng, maxc, rng.randint(5, 14), srcs=V6_SCOPED, method="T" if i % 2 else "B", family=10),
+                     "dns_scoped_askers"))
     outs = ctx.run_driver([r.line(fx) for r, _ in runs])
     for (r, kind), o in zip(runs, outs):
         model = split_steps(o)
@@ -1901,7 +1922,9 @@ class FlowTracker:
       bad_identifier   identifier 0 or above MAX_CHANNEL handed out                               [C06]
       second_socket    a source that has a live association was given another one                 [C11]
       closed_active    UDP_CLOSE for an association that carried a datagram less than 30 s ago     [C11]
-      idle_not_closed  a sweep at time t left an association open whose last datagram is older than t - 30   [C11]"""
+      idle_not_closed  a sweep at time t left an association open whose last datagram is older than t - 30   [C11]
+      udp_datagram_dropped / dns_query_dropped   a captured datagram (any length, also 0 bytes) was not forwarded as exactly
+                       one UDP_DATA / DNS_REQ although an identifier was surely available          [C11 / C10]"""
 
     def __init__(self, method, maxc, family):
         self.method, self.maxc, self.family = method, maxc, family
@@ -1942,6 +1965,25 @@ class FlowTracker:
             if f["kind"] == "dns" and f["status"] == ST_OPEN and f["t0"] + 30 <= t:
                 f["status"] = ST_LIMBO
         frames = [(int(o[1]), int(o[2]), unhx(o[3])) for o in outs if o[0] == "F"]
+        # "each captured DNS datagram is forwarded" / "every captured datagram is re-emitted": demanded whenever an
+        # identifier is surely available — the source has an association, or fewer identifiers than MAX_CHANNEL are held
+        # by flows that are not surely closed (a flow in limbo counts as holding one)
+        busy = sum(1 for f in self.flows.values() if f["status"] != ST_CLOSED)
+        if ev[0] == "U" and self.method == "T" and ev[3] is not None:
+            if tuple(ev[2]) in self.assoc or busy < min(self.maxc, 1024):
+                self.count("udp_datagrams_that_must_be_forwarded")
+                if len(ev[4]) <= 1:
+                    self.count("udp_datagrams_of_0_or_1_bytes")
+                want = ("%s,%d," % (ev[3][0], ev[3][1])).encode() + ev[4][:4096]
+                if [d for c, cmd, d in frames if cmd == CMD["D"]] != [want]:
+                    self.bad.append(("udp_datagram_dropped", "step %d: the %d-byte datagram of %r to %r was not put on the "
+                                     "tunnel as exactly one UDP_DATA (header + identical payload): %r"
+                                     % (i, len(ev[4]), tuple(ev[2]), tuple(ev[3]), [(c, cmd, d[:40]) for c, cmd, d in frames])))
+        if ev[0] == "D" and (self.method == "B" or ev[3] is not None) and busy < min(self.maxc, 1024):
+            self.count("dns_queries_that_must_be_forwarded")
+            if [d for c, cmd, d in frames if cmd == CMD["Q"]] != [ev[4][:4096]]:
+                self.bad.append(("dns_query_dropped", "step %d: the %d-byte query of %r was not put on the tunnel as exactly one "
+                                 "DNS_REQ with identical payload: %r" % (i, len(ev[4]), tuple(ev[2]), [(c, cmd, d[:40]) for c, cmd, d in frames])))
         closed_here = set()
         for ch, cmd, data in frames:
             f = self.flows.get(ch)
@@ -1966,7 +2008,7 @@ class FlowTracker:
                 if ch <= self.last_alloc:
                     self.count("allocations_after_wrap")
                 self.last_alloc = ch
-                src = tuple(ev[2][:2]) if ev[0] in ("D", "U") else None
+                src = tuple(ev[2]) if ev[0] in ("D", "U") else None
                 if kind == "udp" and src is not None:
                     if src in self.assoc:
                         self.bad.append(("second_socket", "step %d: source %r already has the live association %d and was "
@@ -1979,7 +2021,7 @@ class FlowTracker:
                 if f and f["kind"] == "udp" and f["status"] != ST_CLOSED:
                     f["last"] = t
                     if ev[0] == "U":
-                        src = tuple(ev[2][:2])
+                        src = tuple(ev[2])
                         f.setdefault("dsts", set()).add(tuple(ev[3][:2]) if ev[3] else None)
                         if f["src"] != src and self.assoc.get(src) is not None and self.assoc[src] != ch:
                             self.bad.append(("second_socket", "step %d: datagram of source %r travelled on identifier %d, "
@@ -2046,8 +2088,8 @@ FLOW_CLAUSES = {
             "udp_reply_lost": "c06_open_flow_lost_its_identifier", "reissued": "c06_identifier_reissued_while_owned",
             "bad_identifier": "c06_identifier_out_of_range"},
     "C08": {"dns_reply_lost": "c08_other_flow_broken_after_fault", "udp_reply_lost": "c08_other_flow_broken_after_fault"},
-    "C10": {"dns_reply_lost": "c10_reply_lost_before_30s"},
-    "C11": {"second_socket": "c11_shared_socket", "udp_reply_lost": "c11_reply_lost",
+    "C10": {"dns_reply_lost": "c10_reply_lost_before_30s", "dns_query_dropped": "c10_query_dropped"},
+    "C11": {"second_socket": "c11_shared_socket", "udp_reply_lost": "c11_reply_lost", "udp_datagram_dropped": "c11_datagram_dropped",
             "closed_active": "c11_closed_while_active", "idle_not_closed": "c11_idle_not_closed"},
 }
 
@@ -2075,7 +2117,7 @@ def gen_flow_script(rng, profile, quick, fault=None):
     the delivery of replies to the victim source (persistent: every one; transient: one) is made to fail.
     Only well-formed events are generated.  Returns (method, maxc, family, evs, steps, tracker, fault_hits)."""
     method = "B" if (profile != "fanout" and rng.random() < 0.2) else "T"
-    v6 = method == "T" and rng.random() < 0.2
+    v6 = rng.random() < 0.3
     family = 10 if v6 else 2
     if profile == "wrap":
         maxc = rng.choice([2, 3, 3, 4, 5, 6])
@@ -2083,7 +2125,14 @@ def gen_flow_script(rng, profile, quick, fault=None):
         maxc = rng.choice([8, 65535, 65535])
     ips = V6 if v6 else V4
     srcs = [(rng.choice(ips[:3]), 4000 + k, 0, 0) if v6 else (rng.choice(ips[:3]), 4000 + k) for k in range(rng.randint(2, 4))]
-    victim = tuple(srcs[0][:2])
+    if v6 and rng.random() < 0.6:           # link-local sources: same host and port on two interfaces (+ a flow label)
+        srcs = rng.sample(V6_SCOPED, rng.randint(2, 4))
+    victim = tuple(srcs[0])
+
+    def body(tag):
+        """payloads incl. the boundary lengths 0 and 1, in both directions"""
+        r = rng.random()
+        return b"" if r < 0.12 else bytes([rng.randrange(256)]) if r < 0.24 else tag + rand_payload(rng, False)
     now = rng.choice([0, 100, 1000000])
     n = rng.randint(8, 22 if quick else 40)
     sess = ClientSession(method, maxc, family)
@@ -2100,7 +2149,7 @@ def gen_flow_script(rng, profile, quick, fault=None):
             cls = tr.pick(ST_CLOSED)
             ev = None
             if r < 0.22 and opn:
-                mine = [c for c in opn if tr.flows[c]["src"] is not None and tuple(tr.flows[c]["src"][:2]) == victim]
+                mine = [c for c in opn if tr.flows[c]["src"] is not None and tuple(tr.flows[c]["src"]) == victim]
                 ch = rng.choice(mine if fault and mine and rng.random() < 0.6 else opn)
             elif r < 0.40 and cls:
                 ch = rng.choice(cls)
@@ -2114,12 +2163,12 @@ def gen_flow_script(rng, profile, quick, fault=None):
                 f = tr.flows.get(ch)
                 kind = f["kind"] if f else rng.choice(["dns", "udp"])
                 if kind == "dns":
-                    data, cmdkey = b"ans%d" % len(evs) + rand_payload(rng, False), "R"
+                    data, cmdkey = body(b"ans%d" % len(evs)), "R"
                 else:
                     peer = (rng.choice(ips), rng.choice([53, 123, 4500, 65535]))
-                    data, cmdkey = ("%s,%d," % peer).encode() + b"rep%d" % len(evs) + rand_payload(rng, False), "D"
+                    data, cmdkey = ("%s,%d," % peer).encode() + body(b"rep%d" % len(evs)), "D"
                 err, stage = None, 1
-                if fault and f and f["status"] == ST_OPEN and f["src"] is not None and tuple(f["src"][:2]) == victim:
+                if fault and f and f["status"] == ST_OPEN and f["src"] is not None and tuple(f["src"]) == victim:
                     if fault["mode"] == "persistent" or transient_left:
                         err, stage = fault["errno"], fault["stage"]
                         transient_left = 0
@@ -2130,14 +2179,14 @@ def gen_flow_script(rng, profile, quick, fault=None):
                 r2 = rng.random()
                 wu = 0.0 if method == "B" else {"expiry": 0.55, "wrap": 0.35, "fanout": 0.8}[profile]
                 if r2 < wu:
-                    live = [s for s in srcs if tuple(s[:2]) in tr.assoc]
+                    live = [s for s in srcs if tuple(s) in tr.assoc]
                     src = rng.choice(live) if live and rng.random() < 0.6 else rng.choice(srcs + srcs[:1])
-                    ev = ("U", now, src, (rng.choice(ips), rng.choice([53, 123, 4500, 65535])), b"u%d" % len(evs) + rand_payload(rng, False))
+                    ev = ("U", now, src, (rng.choice(ips), rng.choice([53, 123, 4500, 65535])), body(b"u%d" % len(evs)))
                 elif r2 < wu + 0.06:
                     ev = ("T", now, family, (rng.choice(ips), rng.choice([22, 80, 443])))
                 else:
                     src = rng.choice(srcs) if rng.random() < 0.7 else rand_addr(rng, v6, few=False)
-                    ev = ("D", now, src, (rng.choice(ips), 53) if method == "T" else None, b"q%d" % len(evs) + rand_payload(rng, False))
+                    ev = ("D", now, src, (rng.choice(ips), 53) if method == "T" else None, body(b"q%d" % len(evs)))
             st = sess.step(ev)
             evs.append(ev)
             steps.append(st)
@@ -2176,6 +2225,21 @@ def handmade_flow_scripts():
                             "D": ("D", 500 + k, B, dst, b"other")}[b])
             evs += [("F", 1, "R", b"answer-for-pending", None), ("F", 1, "R", b"duplicate", None)]
             out.append((meth, 65535, 2, evs))
+    # link-local askers / sources: the same host and port on interfaces 2 and 3 (and with a flow label); zero-length and
+    # one-byte payloads in both directions; tproxy path (recvmsg) and plain recvfrom path
+    L2, L3, L3f = ("fe80::53:1", 40000, 0, 2), ("fe80::53:1", 40000, 0, 3), ("fe80::53:1", 40000, 7, 3)
+    R6 = ("2001:db8::53", 53)
+    out.append(("T", 65535, 10, [("D", 10, L2, R6, b"q-if2"), ("D", 10, L3, R6, b"q-if3"), ("D", 11, L3f, R6, b""),
+                                 ("F", 2, "R", b"answer-if3", None), ("F", 1, "R", b"answer-if2", None), ("F", 3, "R", b"", None),
+                                 ("U", 12, L2, ("fd00::9", 4500), b"u-if2"), ("U", 12, L3, ("fd00::9", 4500), b""),
+                                 ("U", 13, L2, ("fd00::9", 4500), b"x"), ("U", 13, L3, ("fd00::9", 123), b"u-if3-other-dst"),
+                                 ("F", 5, "D", b"fd00::9,4500,", None), ("F", 4, "D", b"fd00::9,4500,r", None),
+                                 ("F", 5, "D", b"fd00::9,123,reply-if3", None)]))
+    out.append(("B", 65535, 10, [("D", 10, L2, None, b"q-if2"), ("D", 10, L3, None, b""), ("D", 10, L3f, None, b"z"),
+                                 ("F", 3, "R", b"a-flow7", None), ("F", 2, "R", b"", None), ("F", 1, "R", b"a", None)]))
+    out.append(("T", 65535, 2, [("U", 10, A, R, b""), ("U", 10, B, R, b"\0"), ("U", 11, A, S, b""), ("D", 11, C, S, b""),
+                                ("F", 1, "D", b"192.0.2.7,9999,", None), ("F", 2, "D", b"192.0.2.7,9999,,", None),
+                                ("F", 3, "R", b"", None), ("F", 1, "D", b"8.8.8.8,53,x", None)]))
     out.append(("B", 2, 2, [("D", 10, A, None, b"q1"), ("F", 1, "R", b"r1", None), ("F", 1, "R", b"dup", None),
                             ("D", 11, B, None, b"q2"), ("D", 12, C, None, b"q3"), ("F", 1, "R", b"r3", None),
                             ("F", 2, "R", b"r2", None), ("F", 1, "R", b"late", None), ("D", 50, A, None, b"q4"),
@@ -3026,8 +3090,8 @@ def main_oracle(prop, case, res):
         frames, dgrams = got["frames"], got["dgrams"]
         kind = ev[0] if ev[0] != "reply" else evs[ev[1]][0]
         if ev[0] == "udp" and not got.get("skipped"):
-            first = tuple(ev[2][:2]) not in udp_seen
-            udp_seen[tuple(ev[2][:2])] = True
+            first = tuple(ev[2]) not in udp_seen
+            udp_seen[tuple(ev[2])] = True
         if kind not in mine or got.get("skipped"):
             continue
         fam = {4: 2, 6: 10}.get(ev[1]) if ev[0] != "reply" else None
@@ -3062,19 +3126,25 @@ def main_oracle(prop, case, res):
 
 def gen_main_case(rng, method, udp, dns, v6=True, v4=True):
     fams = ([6] if v6 else []) + ([4] if v4 else [])
-    A = {4: [("10.0.0.5", 40001), ("10.0.0.6", 40002)], 6: [("fd00::5", 40001, 0, 0), ("fd00::6", 40002, 0, 0)]}
+    A = {4: [("10.0.0.5", 40001), ("10.0.0.6", 40002)],
+         6: rng.choice([[("fd00::5", 40001, 0, 0), ("fd00::6", 40002, 0, 0)], [("fe80::53:1", 40000, 0, 2), ("fe80::53:1", 40000, 0, 3)],
+                        [("fe80::53:1", 40000, 7, 3), ("fe80::53:1", 40000, 0, 3)]])}
+
+    def pay(tag):
+        r = rng.random()
+        return hx(b"" if r < 0.15 else b"x" if r < 0.3 else tag)
     D = {4: [("192.0.2.7", 53), ("8.8.8.8", 4500), ("1.2.3.4", 13568)], 6: [("2001:db8::53", 53), ("fd00::9", 4500)]}
     evs = []
     n = 0
     for fam in fams:
         if dns:
             for src in A[fam][:rng.randint(1, 2)]:
-                evs.append(["dns", fam, list(src), list(rng.choice(D[fam])[:1]) + [53] if method == "T" else None, hx(b"query-%d" % n)])
+                evs.append(["dns", fam, list(src), list(rng.choice(D[fam])[:1]) + [53] if method == "T" else None, pay(b"query-%d" % n)])
                 n += 1
         if udp:
             src = rng.choice(A[fam])
             for d in rng.sample(D[fam], 2):
-                evs.append(["udp", fam, list(src), list(d), hx(b"dgram,%d" % n)])
+                evs.append(["udp", fam, list(src), list(d), pay(b"dgram,%d" % n)])
                 n += 1
         evs.append(["tcp", fam, list(A[fam][0][:2]) if fam == 4 else list(A[fam][0]), list(rng.choice(D[fam]))])
     rng.shuffle(evs)
@@ -3086,9 +3156,9 @@ def gen_main_case(rng, method, udp, dns, v6=True, v4=True):
             pending.append(len(out) - 1)
         while pending and rng.random() < 0.4:
             k = pending.pop(rng.randrange(len(pending)))
-            out.append(["reply", k, hx(b"answer-to-%d" % k)])
+            out.append(["reply", k, pay(b"answer-to-%d" % k)])
     for k in pending:
-        out.append(["reply", k, hx(b"answer-to-%d" % k)])
+        out.append(["reply", k, pay(b"answer-to-%d" % k)])
     return {"method": method, "udp": udp, "dns": dns, "v6": v6, "v4": v4, "events": out}
 
 
